@@ -26,7 +26,9 @@ impl Decoded {
 
 // ------------------------------------------------------------------------------------------------ codecs
 pub fn gzip(b: &[u8]) -> Vec<u8> {
-	let mut e = flate2::write::GzEncoder::new(Vec::new(), flate2::Compression::default());
+	// a FOREIGN encoder on purpose (other level, a modification time in the header): recompressing its output with the
+	// project's encoder never reproduces the same bytes
+	let mut e = flate2::GzBuilder::new().mtime(1).write(Vec::new(), flate2::Compression::new(4));
 	e.write_all(b).unwrap();
 	e.finish().unwrap()
 }
